@@ -507,7 +507,7 @@ func main() {
 		if i%100 == 99 {
 			it = newInterp()
 		}
-		wd.Beat(p.Src)
+		wd.Beat(p.input()) // what a hang is reported with: replayable
 		w, ok := want[p.Idx]
 		if !ok {
 			fmt.Fprintf(os.Stderr, "no oracle output for %d\n", p.Idx)
